@@ -440,6 +440,14 @@ func validateNonEmptyWithAllowNil(v interface{}, _ string, allowNil bool) error 
 		return nil
 	}
 
+	// named string types (type Name string)
+	if sv := reflect.ValueOf(v); sv.IsValid() && sv.Kind() == reflect.String {
+		if sv.Len() == 0 {
+			return ErrStringEmpty
+		}
+		return nil
+	}
+
 	val := reflect.ValueOf(v)
 	if val.Kind() == reflect.Array || val.Kind() == reflect.Slice {
 		if val.Kind() == reflect.Slice && val.IsNil() {
